@@ -241,9 +241,20 @@ func (d *Driver) GenVC(key string, safety bool, lockCheck bool) (fvc *FuncVC) {
 		v := &Val{T: vc.fresh("p_"+name, s), S: s, GoT: t}
 		if s.K == KRef {
 			vc.assume("(and (>= " + v.T + " 0) (<= " + v.T + " " + ex.get(st, "alloc") + "))")
+			// safety mode: pointer parameters are non-nil at entry; callers are checked (nil-arg obligations)
+			if safety && s.Name != "" && s.Name != "cell" && s.Name != "map" && s.Name != "chan" && s.Name != "func" {
+				vc.assume("(> " + v.T + " 0)")
+			}
 		}
 		if s.K == KAny {
 			vc.assume("(anyWF " + v.T + ")")
+			// safety mode: interface parameters (other than error / empty interface) are non-nil at entry
+			if safety && t.String() != "error" && t.String() != "interface{}" && t.String() != "any" {
+				vc.assume(not(eq(v.T, "anyNil")))
+			}
+		}
+		if safety && s.K == KRef && (s.Name == "func" || s.Name == "cell") {
+			vc.assume("(> " + v.T + " 0)")
 		}
 		if s.K == KString || s.K == KInt || s.K == KBool {
 			syms = append(syms, [2]string{name, v.T})
@@ -272,7 +283,20 @@ func (d *Driver) GenVC(key string, safety bool, lockCheck bool) (fvc *FuncVC) {
 	}
 	var binds []*Val
 	for _, fv := range fn.FreeVars {
-		binds = append(binds, mkParam("fv_"+fv.Name(), fv.Type()))
+		b := mkParam("fv_"+fv.Name(), fv.Type())
+		binds = append(binds, b)
+		if safety {
+			// captured variables: the cell exists and a captured pointer / interface is non-nil
+			if pt, ok := fv.Type().Underlying().(*types.Pointer); ok {
+				es := d.w.SortOf(pt.Elem())
+				cell := "(select " + ex.get(st, ex.cellVar(es)) + " " + b.T + ")"
+				if es.K == KRef {
+					vc.assume("(> " + cell + " 0)")
+				} else if es.K == KAny {
+					vc.assume(not(eq(cell, "anyNil")))
+				}
+			}
+		}
 	}
 	for _, p := range args {
 		_ = p
